@@ -1,7 +1,9 @@
 import EinoV.Oracle.C20Parse
+import EinoV.Oracle.C20Decl
 import EinoV.Expected.C20
 import EinoV.Model.C07
 import EinoV.Model.C07Types
+import EinoV.Model.C07Wf
 
 namespace EinoV.Oracle.C07
 open Lean EinoV EinoV.Build EinoV.C07 EinoV.Oracle.C20Parse
@@ -50,12 +52,61 @@ def handleUniverse (c : Json) : JE Json := do
     ("dyn", J.mkStrs (pairs.map dynS)),
     ("named", J.mkStrs (tys.map namedS))]
 
+def wresStr : WRes → String
+  | .ok => "ok"
+  | .typeErr => "typeErr"
+  | .panic => "panic"
+  | .stuck => "stuck"
+  | .endSkipped => "endSkipped"
+  | .badPick => "badPick"
+  | .merge => "merge"
+  | .nilIn => "nilIn"
+  | .steps => "steps"
+
+/-- case {"stream":"wf", "inT", "outT", "impl", "nodes":[{key, pt | in, out, dyn, ins:[{from, kind,
+    mapped}]}], "endIn":[…], "branches":[{s, t, ends, pick}], "runs":[…]}: a Workflow as its
+    owner declares it.  Answer: what the first Compile says and, if it succeeds, for every
+    START value the result of an Invoke and of a Stream run (with the flags "several tasks were
+    in flight together" and "a node with field-mapped inputs was handed the zero value"). -/
+def handleWf (c : Json) : JE Json := do
+  let im ← parseImpl c
+  let inT ← parseTy (← J.str c "inT")
+  let outT ← parseTy (← J.str c "outT")
+  let njs := J.arrD c "nodes"
+  let nodes ← njs.mapM C20Decl.parseWfNode
+  let endIns ← (J.arrD c "endIn").mapM C20Decl.parseIn
+  let bjs := J.arrD c "branches"
+  let branches ← bjs.mapM fun b => do
+    pure ({ src := (← J.str b "s"), ty := (← parseTy (← J.str b "t")), ends := (← J.strList b "ends") } : WfBranch)
+  let d : WfDecl := { inT, outT, stateTy := none, nodes, endIns, branches }
+  let E : Env := { f := Expected.C20.facts, inCtl := Expected.C20.entryExitInControlBlock, im, ord := Ord.id }
+  let co : COpts := { trigger := .unset, maxSteps := 0, getState := false }
+  let (oc, wr) := wfCompile E Expected.C20.wfBranchEndsChecked d co
+  let bodies : List (String × Nat) := njs.map fun j => (J.strD j "key" "", dynOf (J.strD j "dyn" "c0"))
+  let picks : List String := bjs.map fun j => J.strD j "pick" ""
+  let code : Code := { body := fun k _ => lookupD bodies k, pick := fun _ i _ => picks.getD i "" }
+  let runsIn := (J.arrD c "runs").filterMap (fun j => match j with | .str s => some (dynOf s) | _ => none)
+  let go (m : Mode) : List (WRes × Bool × Bool) :=
+    match wr with
+    | some w => runsIn.map fun d0 => wfRun m im w code (w.r.nodes.length + 3) d0
+    | none => []
+  pure <| Json.mkObj [
+    ("compile", Json.str (outcomeStr oc)),
+    ("kind", Json.str (kindStr oc)),
+    ("invoke", J.mkStrs ((go .invoke).map fun r => wresStr r.1)),
+    ("stream", J.mkStrs ((go .stream).map fun r => wresStr r.1)),
+    ("parInvoke", J.mkArr ((go .invoke).map fun r => Json.bool r.2.1)),
+    ("parStream", J.mkArr ((go .stream).map fun r => Json.bool r.2.1)),
+    ("zmInvoke", J.mkArr ((go .invoke).map fun r => Json.bool r.2.2)),
+    ("zmStream", J.mkArr ((go .stream).map fun r => Json.bool r.2.2))]
+
 /-- case: the build case of C20 plus, per node op, "dyn" (dynamic type the lambda returns),
     per branch op "pick" (end node the condition returns), and "runs": the dynamic types of
     the START values.  Answer: outcome of every call and, if the last call is a successful
     Compile, the result class of every run of that runnable. -/
 def handle (c : Json) : JE Json := do
   if J.strD c "kind" "" == "universe" then return (← handleUniverse c)
+  if J.strD c "stream" "" == "wf" then return (← handleWf c)
   let cs ← parseCase c
   let f := Expected.C20.facts
   let (_, outs, rs) := run f cs.im Ord.id cs.b0 cs.ops
